@@ -28,6 +28,8 @@ for d in sorted(os.listdir(S)):
             "what_was_run": ["confirm_mutant.sh in a scratch worktree: existing suite passes with the change; demo fails with it and passes without it" if os.path.exists(os.path.join(S, d, "demo")) else "cargo test --offline with the change applied",
                              "./selftest seeded/%s/patch.diff (applies the patch to /repo, runs all 19 quick checks, restores /repo)" % d],
             "suite_passes_with_change": suite, "checks_that_alarm": alarms}
+    if agent.get("kind_override"): meta["kind"] = agent["kind_override"]        # e.g. a change outside the property's claimed domain
+    if agent.get("note"): meta["note"] = agent["note"]
     json.dump(meta, open(os.path.join(S, d, "meta.json"), "w"), indent=1)
     rows.append((d, suite, alarms))
     print(d, suite, alarms, flush=True)
